@@ -5,6 +5,7 @@
 package p2p
 
 import (
+	"bytes"
 	"crypto/cipher"
 	"crypto/ecdsa"
 	"io"
@@ -301,7 +302,7 @@ func (r *verifOneMsg) ReadMsg() (Msg, error) {
 // VerifReadProtocolHandshake is readProtocolHandshake on one message (code, size, payload):
 // toobig | disc | wrongcode | badbody | zeroid | ok (+ the peer id).
 func VerifReadProtocolHandshake(code uint64, size uint32, payload []byte) (string, discover.NodeID) {
-	hs, err := readProtocolHandshake(&verifOneMsg{&Msg{Code: code, Size: size, Payload: verifReader(payload)}}, nil)
+	hs, err := readProtocolHandshake(&verifOneMsg{&Msg{Code: code, Size: size, Payload: bytes.NewReader(payload)}}, nil)
 	switch {
 	case err == nil:
 		return "ok", hs.ID
@@ -317,3 +318,84 @@ func VerifReadProtocolHandshake(code uint64, size uint32, payload []byte) (strin
 	}
 	return "badbody", discover.NodeID{}
 }
+
+// ---- base protocol through a real Peer (C17 follow-up 4)
+
+// VerifDiscTableLen is len(discReasonToString).
+func VerifDiscTableLen() int { return len(discReasonToString) }
+
+const (
+	VerifHandshakeMsg = handshakeMsg
+	VerifDiscMsg      = discMsg
+	VerifPingMsg      = pingMsg
+	VerifPongMsg      = pongMsg
+)
+
+func verifDummyProto() Protocol {
+	return Protocol{Name: "aqua", Version: 64, Length: 17, Run: func(p *Peer, rw MsgReadWriter) error {
+		for {
+			msg, err := rw.ReadMsg()
+			if err != nil {
+				return err
+			}
+			msg.Discard()
+		}
+	}}
+}
+
+// VerifPeerHandle runs the real (*Peer).handle on one message of a peer that has
+// one 17-code sub-protocol at offset 16.  Returns the error class
+// (nil | disc | err), the reason value when the error is a DiscReason, and
+// err.Error() — which is what Server.runPeer calls on it.
+func VerifPeerHandle(code uint64, size uint32, payload []byte) (class string, reason uint64, text string) {
+	proto := verifDummyProto()
+	c := &conn{caps: []Cap{proto.cap()}, transport: verifNullTransport{}}
+	p := newPeer(c, []Protocol{proto})
+	close(p.closed) // a sub-protocol message is dropped with io.EOF instead of blocking on proto.in
+	// *bytes.Reader, as rlpxFrameRW.ReadMsg delivers it (rlp then limits the stream to what is there)
+	err := p.handle(Msg{Code: code, Size: size, Payload: bytes.NewReader(payload)})
+	if err == nil {
+		return "nil", 0, ""
+	}
+	if r, ok := err.(DiscReason); ok {
+		return "disc", uint64(r), err.Error()
+	}
+	return "err", 0, err.Error()
+}
+
+// VerifPeerResult is what Server.runPeer sees when Peer.run returns.
+type VerifPeerResult struct {
+	RemoteRequested bool
+	ErrText         string // err.Error(), evaluated exactly as runPeer does for the PeerEvent
+}
+
+// VerifRunPeer starts a real Peer (run, readLoop, pingLoop, one sub-protocol) over
+// fd with the real rlpx transport framed by the given secrets, on the node's own
+// goroutines (nothing recovered).  The result arrives when run returns.
+func VerifRunPeer(fd net.Conn, aesKey, macKey, egressSeed, ingressSeed []byte) <-chan VerifPeerResult {
+	eg := sha3.NewKeccak256()
+	eg.Write(egressSeed)
+	in := sha3.NewKeccak256()
+	in.Write(ingressSeed)
+	t := &rlpx{fd: fd, rw: newRLPXFrameRW(fd, secrets{AES: aesKey, MAC: macKey, EgressMAC: eg, IngressMAC: in})}
+	proto := verifDummyProto()
+	c := &conn{fd: fd, transport: t, caps: []Cap{proto.cap()}, name: "verif"}
+	p := newPeer(c, []Protocol{proto})
+	out := make(chan VerifPeerResult, 1)
+	go func() {
+		remoteRequested, err := p.run()
+		out <- VerifPeerResult{RemoteRequested: remoteRequested, ErrText: err.Error()}
+	}()
+	return out
+}
+
+// verifNullTransport swallows writes (the pong that handle sends from a goroutine).
+type verifNullTransport struct{}
+
+func (verifNullTransport) doEncHandshake(*ecdsa.PrivateKey, *discover.Node) (discover.NodeID, error) {
+	return discover.NodeID{}, nil
+}
+func (verifNullTransport) doProtoHandshake(*protoHandshake) (*protoHandshake, error) { return nil, nil }
+func (verifNullTransport) ReadMsg() (Msg, error)                                     { return Msg{}, io.EOF }
+func (verifNullTransport) WriteMsg(m Msg) error                                      { return m.Discard() }
+func (verifNullTransport) close(error)                                               {}
